@@ -40,6 +40,12 @@ Frame(k) == CASE k \in Decoders -> {"text"}
               [] k = "rewrite" -> {"text", "ts"}
               [] k = "anon" -> {"ecu", "apid", "ctid", "pay", "text"}
               [] OTHER -> {}
+\* flda = the message is an FLDA data package (verbose log info, 5 arguments, framed by "FLDA") *from the source the file
+\* transfer plugin is configured for*: its APID equals the configured apid (if one is configured) and its CTID equals the
+\* configured ctid (if one is configured) - SourceMatch.  FLDA-shaped messages from any other source must pass.
+SourceMatch(cfg, hasExt, apid, ctid) == /\ (cfg.apid = "" \/ (hasExt /\ apid = cfg.apid))
+                                        /\ (cfg.ctid = "" \/ (hasExt /\ ctid = cfg.ctid))
+FtCfgSpace == [apid : {"none", "match", "other"}, ctid : {"none", "match", "other"}]
 KindMayDrop(k, flda) == k = "export" \/ (k = "ft_drop" /\ flda)
 
 \* chain level
@@ -48,11 +54,32 @@ MayFillExt(chain) == Range(chain) \cap Decoders # {}
 Allowed(chain, hadExt, hasExt) == ChainFrame(chain) \cup (IF MayFillExt(chain) /\ ~hadExt /\ hasExt THEN ExtFields ELSE {})
 MayDrop(chain, flda) == \E k \in Range(chain) : KindMayDrop(k, flda)
 
-\* pseudonym tables: sets of <<name space, original id, pseudonym>>
-MapStep(map, ns, key, val) == IF \E p \in map : p[1] = ns /\ p[2] = key
-                              THEN <<ns, key, val>> \in map                          \* equal ids -> equal pseudonyms
-                              ELSE \A p \in map : p[1] = ns => p[3] # val            \* distinct ids -> distinct pseudonyms
-MapAdd(map, ns, key, val) == map \cup {<<ns, key, val>>}
+\* pseudonym tables: sets of <<name space, original id, pseudonym, nr>>; nr = the entry was the nr-th new id of its
+\* name space.  The code numbers pseudonyms <letter><nr as decimal, at least 3 digits> and cuts the text to the 4 characters
+\* of a DLT id (DltChar4::from_str truncates): up to nr = 999 (the *capacity*) all pseudonyms of a name space differ; the
+\* 1000th, 1001st, ... id gets "X1000", "X1001" cut to "X100" - the pseudonym of id no. 100 - in general the pseudonym of
+\* the id whose number consists of the leading 3 digits of nr.  Within the capacity the contract is the property
+\* (function + injective per name space); past it, it states exactly this documented overflow.
+\* (Base and Digits are parameters so that PluginsAnon.tla can check the same operators on a small number system.)
+RECURSIVE Pow(_, _)
+Pow(b, k) == IF k = 0 THEN 1 ELSE b * Pow(b, k - 1)
+RECURSIVE NDigits(_, _)
+NDigits(n, b) == IF n < b THEN 1 ELSE 1 + NDigits(n \div b, b)
+Leading(n, b, d) == IF NDigits(n, b) <= d THEN n ELSE n \div Pow(b, NDigits(n, b) - d)
+CapOf(b, d) == Pow(b, d) - 1
+InNs(map, ns) == {p \in map : p[1] = ns}
+Known(map, ns, key) == \E p \in map : p[1] = ns /\ p[2] = key
+MapStepG(map, ns, key, val, b, d) ==
+    IF Known(map, ns, key)
+    THEN \E p \in map : p[1] = ns /\ p[2] = key /\ p[3] = val                    \* equal ids -> equal pseudonyms
+    ELSE LET n == Cardinality(InNs(map, ns)) + 1 IN
+         IF n <= CapOf(b, d)
+         THEN \A p \in map : p[1] = ns => p[3] # val                             \* distinct ids -> distinct pseudonyms
+         ELSE \E p \in map : p[1] = ns /\ p[4] = Leading(n, b, d) /\ p[3] = val   \* past the capacity: cut to 4 characters
+MapAdd(map, ns, key, val) == IF Known(map, ns, key) THEN map
+                             ELSE map \cup {<<ns, key, val, Cardinality(InNs(map, ns)) + 1>>}
+MapStep(map, ns, key, val) == MapStepG(map, ns, key, val, 10, 3)
+Capacity == CapOf(10, 3)
 
 \* well-formed chains: no kind twice, at most one file-transfer variant
 WellFormed(chain) == /\ \A i, j \in DOMAIN chain : i # j => chain[i] # chain[j]
@@ -106,5 +133,7 @@ TimesUntouchedByAnon == (Range(chain) \subseteq {"anon"}) => \A a \in DOMAIN out
 Terminates == <>done
 
 \* scenario emission: one line per well-formed chain
-EmitChains == (i = 1 /\ st = 1 /\ ~done /\ ins = <<>>) => PrintT(<<"SCN", ToJson([chain |-> chain])>>)
+EmitChains == (i = 1 /\ st = 1 /\ ~done /\ ins = <<>>) =>
+                 /\ PrintT(<<"SCN", ToJson([chain |-> chain])>>)
+                 /\ (chain = <<>> => \A cfg \in FtCfgSpace : PrintT(<<"FTCFG", ToJson(cfg)>>))
 =============================================================================
